@@ -547,11 +547,25 @@ def replay_case(art):
     inpath = art + ".input"
     open(inpath, "w").write(",".join(str(x) for x in v["input"]))
     args = [v["side"], "@" + inpath, ",".join(str(c) for c in v["cuts"]), ",".join(v["methods"])]
+    if v["side"] == "advance":
+        if sum(v["cuts"]) > (1 << 24):
+            return None, "stable prefix too large to build natively"
+        args = ["advance", "0", ",".join(str(c) for c in v["cuts"]), str(v["count"])]
     if v["side"] == "stream":
         args = ["stream", "@" + inpath, "none" if v.get("max_size") is None else str(v["max_size"]), "none" if v.get("limit") is None else str(v["limit"])]
     p = subprocess.run(["cargo", "run", "--offline", "-q", "--"] + args, cwd=d, env=env, stdout=subprocess.PIPE, stderr=subprocess.STDOUT, text=True, timeout=900)
     out = p.stdout
     import re as _re
+    if v["side"] == "advance":
+        mm = _re.search(r"ADVANCE (PANIC|returned=(\d+) removed=(\d+))", out)
+        if not mm:
+            return None, "replay driver failed: " + out[-400:]
+        want = v["expected"]["consumed"]
+        if mm.group(1) == "PANIC":
+            return True, "native advance_slices(%d) over slices %r panicked" % (v["count"], v["cuts"])
+        if int(mm.group(2)) != want or int(mm.group(3)) != want:
+            return True, "native advance_slices(%d) over slices %r returned %s and removed %s bytes, expected %d" % (v["count"], v["cuts"], mm.group(2), mm.group(3), want)
+        return False, "native advance_slices(%d) over slices %r consumed %d bytes as expected" % (v["count"], v["cuts"], want)
     if v["side"].startswith("readwrap"):
         lines = [l for l in out.splitlines() if l.startswith("READWRAP ")]
         if not lines:
@@ -588,6 +602,8 @@ def replay_case(art):
                 return True, "native StreamReader on %s (max_record_size %s, limit_offset %s) %s yields [%s], the stream's valid records are [%s]" % (
                     _short(v["input"]), v.get("max_size"), v.get("limit"), l.split(" => ")[0][7:], got, want)
         return False, "native StreamReader agrees with the reference on %s for %d block-size / read-size schedules" % (_short(v["input"]), len(lines))
+    if v["side"] not in ("encode", "decode", "roundtrip", "anchors-enc", "anchors-dec"):
+        return None, "no native replay for side %r" % v["side"]
     m = _re.search(r"RESULT (\w+)(?: (.*))?", out)
     if not m:
         return None, "replay driver failed: " + out[-400:]
@@ -1586,3 +1602,122 @@ class ReadWrappers(CodecJob):
             viol.append({"desc": "encode_read / decode_read disagree with read_n's contract composed with the codec", "side": "readwrap-" + side, "input": inp, "cuts": counts, "methods": [],
                          "limits": list(PROD), "expected": {"kind": "ok", "bytes": []}, "smt2": path})
         return ob, viol, {"config": {k: (v if k != "sym" else list(v)[:8]) for k, v in cfg.items()}, "paths": npaths}, npaths
+
+
+def load_iovec_module():
+    return mir.Module(mir.dump_mir("owning_iovec", os.path.join(WORK, "mir")))
+
+
+class AdvanceSlices(CodecJob):
+    """ConsumingIovec::advance_slices (MIR of owning_iovec) over a stubbed stable prefix: the byte count it asks
+    GlobalDeque::consume_by_bytes to drop is min(count, bytes in the stable prefix), for EVERY count."""
+    name = "c09::advance_slices_kernel[mirx]"
+    pid = "C09"
+
+    def __init__(self, tier="quick", seed=0, pid="C09"):
+        CodecJob.__init__(self, tier, seed)
+        self.pid = pid
+        self.name = "%s::advance_slices_kernel[mirx]" % pid.lower()
+
+    def configs(self):
+        import itertools
+        top = 3 if self.tier == "quick" else 4
+        for n in range(0, top + 1):
+            for lens in itertools.product((1, 2, 5) if n < 4 else (1, 3), repeat=n):
+                yield {"stable": list(lens)}
+        yield {"stable": [70, 300, 64008]}
+        yield {"stable": [(1 << 63) - 1, (1 << 63) - 1, 7]}
+
+    def bounds(self):
+        return ("ConsumingIovec::advance_slices with OwningIovec::stable_prefix() stubbed to return slices of the given lengths (every vector of <= 3 (quick) / 4 (thorough) lengths from {1,2,5}, plus [70,300,64008] and two slices of 2^63-1 bytes) "
+                "and a symbolic 64-bit count: the argument handed to GlobalDeque::consume_by_bytes equals min(count, total stable bytes), and no arithmetic overflow panic is reachable")
+
+    def functions(self):
+        return ["owning_iovec::ConsumingIovec::advance_slices (MIR)", "stubs: OwningIovec::stable_prefix = a given list of slices; GlobalDeque::consume_by_bytes = records its argument; slice::Iter as a cursor"]
+
+    def _run_shard(self, logdir, cfgs, idx):
+        import smtengine
+        q = smtengine.Queries(logdir, "%s-s%d" % (self.name.replace("::", "-").replace("[", "").replace("]", ""), idx), keep_unsat=False)
+        out = {"obligations": [], "violations": [], "samples": [], "npaths": 0, "queries": 0, "solver_s": 0.0}
+        try:
+            mod = load_iovec_module()
+            for cfg in cfgs:
+                ob, viol, sample, paths = self.check(mod, cfg, q)
+                out["obligations"] += ob
+                out["violations"] += viol
+                out["npaths"] += paths
+                if sample and len(out["samples"]) < 3:
+                    out["samples"].append(sample)
+        except Unsupported as e:
+            out["unsupported"] = str(e)
+        out["queries"], out["solver_s"] = q.n, q.solver_s
+        return out
+
+    def check(self, mod, cfg, q):
+        from mirx import Interp
+        lens = cfg["stable"]
+        decls = ["(declare-const count (_ BitVec 64))"]
+        it = Interp(mod, decls=decls, max_steps=100000)
+        it.exact_overflow = True
+        body = [b[-1] for k, b in mod.bodies.items() if k.endswith("::advance_slices")]
+        if len(body) != 1:
+            raise Unsupported("cannot find advance_slices")
+        st = State()
+        # IoSlice values only matter through their length: represent each as a slice object of that length lazily
+        st.store["g:ciov"] = Adt("ConsumingIovec", {"stable": Slice([LenSlice(n) for n in lens], "stable"), "inner": Adt("OwningIovec", {"slices": Adt("GlobalDeque", {})})})
+        count = Sym("count", 64)
+        try:
+            res = it.call(body[0], [Ref("g:ciov"), count], base=st)
+        finally:
+            it.z3.close()
+        total = sum(lens)
+        alts = []
+        for r in res:
+            c = AND(*r.state.cond)
+            if c is False:
+                continue
+            if r.kind != "return":
+                alts.append("true" if c is True else c)
+                continue
+            ev = [e for e in r.state.events if e[0] == "consume_by_bytes"]
+            if len(ev) != 1:
+                alts.append("true" if c is True else c)
+                continue
+            n = ev[0][1]
+            nt = n.term if isinstance(n, Sym) else bvconst(n, 64)
+            if total >= 1 << 64:
+                want = "count"
+            else:
+                want = "(ite (bvult count %s) count %s)" % (bvconst(total, 64), bvconst(total, 64))
+            alts.append(AND(c, "(not (= %s %s))" % (nt, want)))
+        tag = "adv-" + "_".join(map(str, lens))[:60]
+        a, ans, model, path = q.ask(tag, decls, [mir.disj(alts)]) if alts else ("unsat", None, "", "")
+        ob = [("advance_slices over stable prefix %r: consumed == min(count, %d) for every count" % (lens[:6], total), a)]
+        viol = []
+        if a == "sat":
+            mv = mir.model_values(model)
+            cnt = int(mv.get("count", 0))
+            viol.append({"desc": "advance_slices consumes a byte count other than min(count, stable bytes)", "side": "advance", "input": [], "cuts": list(lens), "methods": [], "limits": list(PROD),
+                         "count": cnt, "expected": {"kind": "ok", "bytes": [], "consumed": min(cnt, total)}, "smt2": path})
+        cov = [AND(*r.state.cond) for r in res]
+        cov = ["true" if c is True else c for c in cov if c is not False]
+        a2, _, _, _ = q.ask(tag + "-cov", decls, ["(not %s)" % mir.disj(cov)], get_model=False) if cov else ("sat", None, "", "")
+        ob.append(("advance_slices over %r: the enumerated paths cover every count" % (lens[:6],), a2))
+        return ob, viol, {"config": cfg, "paths": len(res)}, len(res)
+
+
+class _LenOnly:
+    def __init__(self, n):
+        self.n = n
+
+    def __len__(self):
+        return self.n
+
+
+class LenSlice(Slice):
+    """A slice of which only the length matters (its elements are never read)."""
+    __slots__ = ()
+
+    def __init__(self, n):
+        self.elems = _LenOnly(n)
+        self.tag = "io"
